@@ -16,8 +16,8 @@ from __future__ import annotations
 import ast
 
 from ..lib import *
-from ..twin import check_pairs
-from ._twins import pairs_for, all_pairs
+from ..twin import check_pairs, check_loose
+from ._twins import pairs_for, all_pairs, loose_for, all_loose
 from . import _tables as T
 
 EXPLANATION = (
@@ -142,6 +142,7 @@ def check(ctx):
     n_tw = check_pairs(ctx, pairs_for("C22"))
     ctx.count("twin_pairs", n_tw)
     ctx.floor("twin_pairs", 5)
+    check_loose(ctx, loose_for("C22"))
 
 
 VARIANTS = [
